@@ -1,14 +1,23 @@
 (* C09 The stored workflow satisfies its invariants after every transaction.
-   Property theorems only; proofs in proofs/GraphProofs.v. *)
+   Property theorems only; proofs in proofs/Graph*.v (see design.d/C09.md). *)
 From Coq Require Import List NArith Bool.
-From SV Require Import lib.Bytes model.Graph model.GraphInv proofs.GraphProofs.
+From SV Require Import lib.Bytes lib.Closure model.Graph model.GraphInv gen.GenGraph
+  proofs.GraphNodes proofs.GraphProofs proofs.GraphTables.
 Import ListNotations.
 Open Scope N_scope.
 
-(* Full statement (every conjunct of inv_b, every operation of the transaction alphabet,
-   every history). *)
+(* ------------------------------------------------------------------------------------------ *)
+(* 1. The invariant holds after every committed transaction                                    *)
+(* ------------------------------------------------------------------------------------------ *)
+
+(* Full statement: for every history of the 14 transaction kinds (valid or rejected, any
+   arguments) that respects the one protocol fact the invariant depends on (hold() is only
+   requested by a RUNNING step, protocol_run_b), the boolean invariant inv_b = I0 nodes && I1 local
+   && I1 reach && rows && I2a deps && I2b acyclic && I3 undeclared && I5a hashes && I5b
+   deferred/holding && I3' no-creator holds in every prefix. *)
 Definition C09_full : Prop :=
-  forall (cap : N) (ops : list op), inv_b (run_ops ops (init_st cap)) = true.
+  forall (cap : N) (ops : list op),
+    protocol_run_b (init_st cap) ops = true -> all_prefixes_ok inv_b (init_st cap) ops = true.
 
 Theorem C09_inv_init : forall cap, inv_b (init_st cap) = true.
 Proof. exact inv_init. Qed.
@@ -16,3 +25,142 @@ Proof. exact inv_init. Qed.
 Theorem C09_rejected_transaction_changes_nothing :
   forall s o, (forall s', step_op o s <> Ok s') -> apply_op s o = s.
 Proof. exact apply_op_error_unchanged. Qed.
+
+(* one step, from ANY state that satisfies the invariant (not only reachable ones) *)
+Theorem C09_inv_preserved :
+  forall s o, inv_b s = true -> protocol_hold_b s o = true -> inv_b (apply_op s o) = true.
+Proof. exact inv_preserved. Qed.
+
+Theorem C09_reachable_inv :
+  forall cap ops, protocol_run_b (init_st cap) ops = true -> inv_b (run_ops ops (init_st cap)) = true.
+Proof. exact reachable_inv. Qed.
+
+Theorem C09_every_prefix : C09_full.
+Proof. exact reachable_inv_prefixes. Qed.
+
+(* Without any protocol assumption: every conjunct except "holding > 0 -> RUNNING" *)
+Theorem C09_core_inv_preserved :
+  forall s o, inv_core_b s = true -> inv_core_b (apply_op s o) = true.
+Proof. exact inv_core_preserved. Qed.
+
+Theorem C09_reachable_inv_core :
+  forall cap ops, inv_core_b (run_ops ops (init_st cap)) = true.
+Proof. exact reachable_inv_core. Qed.
+
+(* The holding clause really needs the protocol: Step.hold does not look at the state.  A hold
+   request for a PENDING step (which the director cannot produce: it resolves the step through
+   the running job) leaves holding = 1 on a PENDING step. *)
+Definition hold_witness : list op :=
+  [OpDeclareStatic root_key [[112]];
+   OpUpdateHashes CConfirmed [([112], Some 1)];
+   OpDefineStep root_key [115] [[112]] [] [] [] NPlan;
+   OpHold [115]].
+Theorem C09_unrestricted_hold_refuted :
+  exists cap ops, inv_core_b (run_ops ops (init_st cap)) = true /\ inv_b (run_ops ops (init_st cap)) = false.
+Proof. exists 3, hold_witness. vm_compute. split; reflexivity. Qed.
+
+(* ------------------------------------------------------------------------------------------ *)
+(* 2. detached <-> not reachable from the root through creator links                           *)
+(* ------------------------------------------------------------------------------------------ *)
+Theorem C09_detached_iff_unreachable :
+  forall cap ops n, let s := run_ops ops (init_st cap) in
+    In n (nodes s) -> (ndet n = true <-> ~ Reach (nodes s) (nk n)).
+Proof.
+  intros cap ops n s Hn. apply detached_iff_unreachable_core; [apply reachable_inv_core | exact Hn].
+Qed.
+
+(* ------------------------------------------------------------------------------------------ *)
+(* 3. requests never raise an internal error                                                   *)
+(* ------------------------------------------------------------------------------------------ *)
+Theorem C09_requests_never_internal :
+  forall s o, inv_b s = true -> request_ok s o = true -> is_internal (step_op o s) = false.
+Proof. exact requests_never_internal. Qed.
+
+(* The clause "a step does not define a step with its own label" of request_ok is needed: a
+   RUNNING step that was detached meanwhile (its creator failed) and defines itself hits the
+   CHECK (creator != i) of the node table: sqlite3.IntegrityError (finding C09-selfdefine). *)
+Definition plan_label : str := [46; 47; 112].
+Definition selfdef_prefix : list op :=
+  [OpDeclareStatic root_key [[112]];
+   OpUpdateHashes CConfirmed [([112], Some 1)];
+   OpDefineStep root_key plan_label [[112]] [] [] [] NPlan;
+   OpDispatch plan_label;
+   OpResetForRerun plan_label;
+   OpDefineStep (KStep, plan_label) [65] [] [] [] [] NDefault;
+   OpDispatch [65];
+   OpResetForRerun [65];
+   OpExecEnd plan_label [] CFailed [] false false].
+Definition selfdef_request : op := OpDefineStep (KStep, [65]) [65] [] [] [] [] NDefault.
+Theorem C09_self_definition_internal_refuted :
+  exists cap ops o, let s := run_ops ops (init_st cap) in
+    protocol_run_b (init_st cap) ops = true /\ inv_b s = true /\ request_ok_weak s o = true /\
+    step_op o s = Internal 124.
+Proof. exists 3, selfdef_prefix, selfdef_request. vm_compute. repeat split; reflexivity. Qed.
+
+(* the hypotheses are satisfiable by non-trivial instances *)
+Example C09_protocol_nonvacuous :
+  protocol_run_b (init_st 3) (selfdef_prefix ++ [OpHold [65]; OpRelease [65]]) = true /\
+  inv_b (run_ops (selfdef_prefix ++ [OpHold [65]]) (init_st 3)) = true.
+Proof. vm_compute. split; reflexivity. Qed.
+Example C09_request_ok_nonvacuous :
+  let s := run_ops selfdef_prefix (init_st 3) in
+  request_ok s (OpDefineStep (KStep, [65]) [66] [[112]; [120]] [[69]] [[121]] [[122]] NDefault) = true /\
+  request_ok s (OpAmendStep [65] [[120]] [] [[121]] []) = true /\
+  request_ok s (OpDeclareStatic (KStep, [65]) [[119]; [120]]) = true.
+Proof. vm_compute. repeat split; reflexivity. Qed.
+
+(* ------------------------------------------------------------------------------------------ *)
+(* 5. the hand-written tables of the model equal the tables regenerated from the source        *)
+(* ------------------------------------------------------------------------------------------ *)
+Theorem C09_model_tables_match_source :
+
+  (* enum values, no member beyond the constructors *)
+  (gen_FileState_codes = map fstate_code all_fstates /\ (forall f, In f all_fstates)) /\
+  (gen_StepState_codes = map sstate_code all_sstates /\ (forall x, In x all_sstates)) /\
+  (gen_Need_codes = [need_code NOptional; need_code NDefault; gen_Need_TARGET; need_code NPlan] /\
+   gen_step_need_column_values = map need_code all_needs /\ (forall n, In n all_needs)) /\
+  (gen_HashUpdateCause_codes = map cause_code all_causes /\ (forall c, In c all_causes)) /\
+  (gen_FileRole_codes = [61; 62; 63]) /\
+  (gen_kind_codes = map kind_code all_kinds /\ (forall k, In k all_kinds)) /\
+  (* _HASH_TRANSITIONS *)
+  (forall c old known,
+     code_transition (transition c old known)
+     = gen_transition_lookup (cause_code c) (fstate_code old) known) /\
+  (forall row, In row gen_hash_transitions ->
+     exists c old known, fst row = (cause_code c, fstate_code old, known) /\
+                         code_transition (transition c old known) = Some (snd row)) /\
+  nodupb tkey_eqb (map fst gen_hash_transitions) = true /\
+  (* file_clear_hash, hash CHECK, UNDECLARED implies detached *)
+  (forall old new, clears_hash old new = gen_clears_hash_eval (fstate_code old) (fstate_code new)) /\
+  (forall old new (h : option N),
+     (if clears_hash old new then None else h) =
+     (if gen_clears_hash_eval (fstate_code old) (fstate_code new)
+         && (negb gen_clear_hash_requires_hash || is_some h) then None else h)) /\
+  (forall f, needs_hash f = memN (fstate_code f) gen_needs_hash_states) /\
+  (forall f, fstate_eqb f FUndeclared = (fstate_code f =? gen_undeclared_detached_state)) /\
+  (* FILE_ROLE_BY_STATE *)
+  (forall f, role_of f = gen_role_lookup (fstate_code f)) /\
+  (forall f, role_of f = None <-> f = FUndeclared) /\
+  (forall p, In p gen_file_role_by_state ->
+     (exists f, fst p = fstate_code f /\ role_of f = Some (snd p)) /\ In (snd p) gen_FileRole_codes) /\
+  (* kind triggers *)
+  (forall a b : key,
+     dep_kinds_ok a b = gen_dependency_allows (kind_code (fst a)) (kind_code (fst b))) /\
+  (forall child parent,
+     creator_kind_ok child parent = gen_creator_allows (kind_code child) (kind_code parent)) /\
+  gen_creator_kind_exempt = [kind_code KRoot] /\
+  (* step triggers and CHECK *)
+  (forall l new d s, set_sstate l new d s = set_sstate_spec l new d s) /\
+  (* _DECLARABLE_STATES *)
+  (forall c l f s,
+     memN (fstate_code f) gen_declarable_states = false -> declare_file c l f s = Internal 116) /\
+  (forall c l f s,
+     memN (fstate_code f) gen_declarable_states = true ->
+     declare_file c l f s =
+     bind (create (KFile, l) (Some c) (InitFile f) s)
+          (fun s1 => match f with
+                     | FVolatile => match attached_step_sinks l s1 with [] => Ok s1 | _ => Usage 203 end
+                     | _ => Ok s1
+                     end)) /\
+  (forall n, In n gen_declarable_states -> exists f, n = fstate_code f).
+Proof. exact model_tables_match_source. Qed.
